@@ -10,7 +10,7 @@ from ..harness import qcall, tree_files
 
 ID = "C20"
 LEVEL = "fault_enumeration"
-BUDGET = {"quick": 2400, "thorough": 400000}
+BUDGET = {"quick": 7200, "thorough": 400000}
 TECHNIQUE = "fault injection by generated edit sequences; differential between taste's verdict and a full read checked against an independent FAB scan"
 RULE = ("Hypothesis-generated 2D/3D plotfiles x sequences of 0-3 edits drawn from the 27 C04 corruption kinds plus 9 "
         "kinds that tend to survive validation (offset moved inside the FAB prefix, whitespace in Cell_H / Header "
